@@ -21,7 +21,7 @@ SPEC = {
     "race": True,
     "theorems": ["C08_written_before_done", "C08_done_once_per_scheduling", "C08_store_is_last_write",
                  "C08_only_stop_can_fail", "C08_stop_waits_partial", "C08_ok_partial", "C08_stop_waits_state_partial",
-                 "C08_racing_enqueue_all_or_nothing_partial", "C08_window_counter",
+                 "C08_racing_enqueue_all_or_nothing_partial", "C08_no_block_forever_partial", "C08_window_counter",
                  "C08_racing_enqueue_witness", "C08_stop_waits_witness", "C08_no_block_forever_witness",
                  "C08_statement_witness", "C08_skeleton_Enqueue", "C08_skeleton_startBatchWriter",
                  "C08_skeleton_StopBatchWriter", "C08_skeleton_Flush", "C08_skeleton_runBatchWriter",
@@ -33,7 +33,11 @@ SPEC = {
                  "the batch time-out timer may fire at any step (abstract time)",
                  "store errors (Batched()/Commit() failing => writer panics), Int32 overflow of scheduledCount and batch size 0 are NOT modelled",
                  "BatchWriteObject implementations are the harness's (flag test-and-set, version counter)"],
-    "manifest": {"text": "", "note": "", "technique": ""},
+    "manifest": {
+        "text": "Protocol model (Hive.Conc.Sys) of BatchedWriter Enqueue/Stop/Flush/writer goroutine/collector with arbitrary queue size, batch size and thread pool; the property is the decidable trace predicate Spec.BatchWriter.ok/okFinal. Full-strength theorems over every reachable configuration: C08_written_before_done, C08_done_once_per_scheduling, C08_store_is_last_write, C08_only_stop_can_fail. Partial (hypothesis: no producer between its running check and scheduledCount.Add(1) when Stop clears running, ghost flag raced=false, C08_window_counter): C08_stop_waits_partial, C08_ok_partial, C08_stop_waits_state_partial, C08_racing_enqueue_all_or_nothing_partial, C08_no_block_forever_partial (no reachable deadlock; eventual progress under fairness not formalised). The code violates the full statement (def C08_statement) in that window: C08_racing_enqueue_witness, C08_stop_waits_witness, C08_no_block_forever_witness, C08_statement_witness are proved schedules of the model, and the same schedules are forced on the real code (verif yield point in Enqueue, BatchWriteScheduled callback) with trace equality against the model's witness trace. Tie: every run's event trace (harness BatchWriteObjects + store wrapper, one mutex-ordered log) is judged by the Lean driver with the same predicate and by an independent index-based Go oracle; regenerated synchronisation skeletons (C08_skeleton_*).",
+        "note": "Trusted: Lean kernel; hand-written model of batch_writer.go/batch_collector.go (tied by trace predicate on real traces, witness replay, skeleton regeneration); Go sync primitive semantics as modelled; store errors, counter overflow, batch size 0 not modelled; liveness only as deadlock freedom. One defect fixed (writeWg.Add before go), three recorded known findings share the Enqueue/Stop window.",
+        "technique": "Lean 4 inductive invariants over an interleaving semantics with arbitrary thread pools + decidable trace predicate evaluated on recorded traces + forced-schedule replay",
+    },
     "assumptions": ["producer identifiers distinct; every thread starts outside a call (Init)",
                     "_partial theorems: no producer between its running check and scheduledCount.Add(1) when Stop clears running (ghost flag raced = false)"],
 }
